@@ -53,7 +53,15 @@ def run_replay(cexdir, race=False, keep=False):
     h = cex["harness"]
     work = tempfile.mkdtemp(prefix="verif-replay-", dir="/var/tmp")
     try:
-        racy = ",".join(x for x in (cex.get("racy_cells") or []) if "@" not in x and "." in x)
+        cells = []
+        for x in (cex.get("racy_cells") or []):
+            if "@" not in x and "." in x:
+                cells.append(x)  # Type.field
+                continue
+            m = re.match(r"^(\w+)@(?:.*/)?([^/@]+\.go):(\d+)$", x)
+            if m:
+                cells.append("%s@%s:%s" % m.groups())  # a captured local variable: name@file:line of its declaration
+        racy = ",".join(sorted(set(cells)))
         ov, msg = build_overlay(h, work, racy)
         if ov is None:
             return None, msg, ""
